@@ -173,15 +173,31 @@ def main():
                 if os.path.exists(p):
                     os.remove(p)
             rec["checks"] = {}
+            todo = []
             for c in checks:
-                hs = harness_of(c)
                 if not os.path.exists(os.path.join(VERIF, "checks", f"{c}.py")):
                     rec["checks"][c] = {"caught": None, "note": "no check registered yet"}
-                    continue
-                rc, out, s = sh(f"MUTRUN_SEED='{' '.join(hs)}' tools/mutrun {wt} ./check {c}", VERIF, timeout=7200)
-                viol = [l for l in out.splitlines() if l.startswith("VIOLATION")]
-                rec["checks"][c] = {"caught": bool(viol) and rc != 0, "rc": rc, "s": s, "violation_line": viol[:1],
-                                    "tail": "\n".join(out.splitlines()[-8:])}
+                else:
+                    todo.append(c)
+            if todo:
+                # one isolated run for all requested checks (they usually share a harness build)
+                hs = sorted({h for c in todo for h in harness_of(c)})
+                script = f"/tmp/seedval_cmd_{name}.sh"
+                with open(script, "w") as f:
+                    for c in todo:
+                        f.write(f"echo __BEGIN_{c}; ./check {c}; echo __RC_{c}=$?\n")
+                t0 = time.time()
+                p = subprocess.run(f"MUTRUN_SEED='{' '.join(hs)}' tools/mutrun {wt} sh {script}", cwd=VERIF, shell=True,
+                                   capture_output=True, text=True, timeout=4 * 7200)
+                out = p.stdout + p.stderr
+                os.remove(script)
+                for c in todo:
+                    seg = out.split(f"__BEGIN_{c}", 1)[-1].split("__BEGIN_", 1)[0]
+                    m = re.search(rf"__RC_{c}=(\d+)", seg)
+                    rc = int(m.group(1)) if m else -1
+                    viol = [l for l in seg.splitlines() if l.startswith("VIOLATION")]
+                    rec["checks"][c] = {"caught": bool(viol) and rc != 0, "rc": rc, "s": round(time.time() - t0, 1),
+                                        "violation_line": viol[:1], "tail": "\n".join(seg.splitlines()[-8:])}
     finally:
         if not keep:
             subprocess.run(f"git -C /repo worktree remove --force {wt}", shell=True, capture_output=True)
